@@ -220,4 +220,21 @@ example (x y z w v : Expr) :
     disjToks (.ex x, []) [(.ex y, [.bin z .eq w, .ex v])]
       = [.val x, .or_, .val y, .and_, .val z, .cmp .eq, .val w, .and_, .val v] := rfl
 
+/-- **The first operand that decides a condition decides it** — whatever the other operand is,
+even one that would raise: `false and r` is false and `true or r` is true for every `r`; an operand
+is evaluated only when the ones before it left the outcome open (and then its error is the
+condition's error). -/
+theorem C06_short_circuit (st : Stack) (l r : Cond) :
+    (l.eval st = .ok false → (Cond.and l r).eval st = .ok false) ∧
+    (l.eval st = .ok true → (Cond.or l r).eval st = .ok true) ∧
+    (l.eval st = .ok true → (Cond.and l r).eval st = r.eval st) ∧
+    (l.eval st = .ok false → (Cond.or l r).eval st = r.eval st) ∧
+    (l.eval st = .err → (Cond.and l r).eval st = .err ∧ (Cond.or l r).eval st = .err) := by
+  refine ⟨?_, ?_, ?_, ?_, ?_⟩ <;> intro h <;> simp [Cond.eval, h, bind, Res.bind, pure]
+
+/-- non-vacuity: a true operand in front of a comparison over an undefined name -/
+example (st : Stack) (r : Cond) (h : (Cond.exist (.lit (.sc (.bool true)))).eval st = .ok true) :
+    (Cond.or (.exist (.lit (.sc (.bool true)))) r).eval st = .ok true :=
+  (C06_short_circuit st _ r).2.1 h
+
 end Liquid.C06
